@@ -314,28 +314,17 @@ def setup(spec):
     refnum.self_test()
 
 
-def shards(tier):
-    out = [
-        {"check": "tri"},
-        {"check": "gauss"},
-        {"check": "reject"},
-        {"check": "collocation"},
-    ]
+def shards(tier, seed=1):
+    out = [{"check": "tri"}, {"check": "gauss"}, {"check": "reject"}, {"check": "collocation"}]
     top = 7 if tier == "quick" else 10
     for adj in _NPTS:
-        for n in range(2, top + 1):
-            if n >= 6:
-                out.append({"check": "duffy_poly", "adj": [adj], "orders": [n]})
-        out.append({"check": "duffy_poly", "adj": [adj], "orders": [n for n in range(2, 6)]})
-    geoms = list(_GEOMS)
-    for g in geoms:
+        out.append({"check": "duffy_poly", "adj": [adj], "orders": list(range(2, top + 1))})
+    for g in list(_GEOMS):
         out.append({"check": "remap", "geom": g})
     out.append({"check": "remap_random", "examples": 40 if tier == "quick" else 400, "budget_s": 150 if tier == "quick" else 1200})
     if tier == "thorough":
         for adj in _NPTS:
             out.append({"check": "duffy_poly_sampled", "adj": adj, "examples": 60, "budget_s": 900})
-    # heavy shards first
-    out.sort(key=lambda s: -max(s.get("orders", [0])))
     return out
 
 
